@@ -199,7 +199,8 @@ def run_quiet(prop, scenario):
                     res.faults['object_failed_on_a_damaged_log_before'] += 1
                 for k_, name_ in (('reuse_buffers', 'caller_refills_its_buffers_in_place'), ('idem_config', 'same_configuration_issued_again_mid_stream'),
                                   ('explained_before', 'object_explained_another_log_before'), ('reconf', 'object_used_under_another_sampling_period_before'),
-                                  ('surplus_named', 'data_set_has_columns_named_like_assertions')):
+                                  ('surplus_named', 'data_set_has_columns_named_like_assertions'),
+                                  ('late_config', 'object_configured_after_parse')):
                     if _M.ENV_FIRED.get(k_):
                         res.faults[name_] += 1
             res.cpu_s = time.process_time() - cpu0
@@ -266,6 +267,8 @@ def _draw_env(prop, rng, scenario):
             env['reconf'] = rng.randrange(1 << 30)
         if rng.random() < 0.08 and 'surplus_named' not in out:
             env['surplus_named'] = rng.randrange(1 << 30)
+        if rng.random() < 0.15 and 'late_config' not in out:
+            env['late_config'] = True
         if env:
             scenario['_env'] = env
 
